@@ -175,9 +175,18 @@ impl From<KnownIccTrc> for TransferFunction {
             KnownIccTrc::ParametricGamma(g) => {
                 let g = g as u64;
                 let g_1e7 = (g * 10000000 + 32768) / 65536;
-                TransferFunction::Gamma {
-                    g: g_1e7 as u32,
-                    inverted: false,
+                if let Ok(g_1e7) = u32::try_from(g_1e7) {
+                    TransferFunction::Gamma {
+                        g: g_1e7,
+                        inverted: false,
+                    }
+                } else {
+                    // Gamma is larger than what `g` can hold; use the inverted form instead.
+                    let g_inv_1e7 = (65536u64 * 10000000 + g / 2) / g;
+                    TransferFunction::Gamma {
+                        g: g_inv_1e7 as u32,
+                        inverted: true,
+                    }
                 }
             }
             KnownIccTrc::Linear => TransferFunction::Linear,
